@@ -13,7 +13,7 @@
 
    All functions take the tables [T] (regenerated from the sources) and the
    environment [E] as arguments. *)
-From Robsd Require Export Conf.ConfTypes.
+From Robsd Require Export Conf.ConfTypes Conf.ConfNames.
 Local Open Scope N_scope.
 
 (* ---------------------------------------------------------------- characters *)
@@ -268,9 +268,6 @@ Definition rdomain_next (T : tables) (c : cfg) : cfg * Z :=
     (set_rdomain c (if t_rdomain_fixed T then t_rdomain_min T + 1 else t_rdomain_min T)%Z, t_rdomain_min T)
   else (set_rdomain c (r + 1)%Z, r).
 
-Definition minus_x : bytes := [45; 120].
-Definition kw_parallel : bytes := bs "parallel".
-Definition str_regress : bytes := bs "regress".
 
 Section Lookup.
   Variable E : env.
@@ -405,7 +402,6 @@ Definition sinterp_str {St : Type} (limit : nat) (ignore : bool) lk (st : St) (s
   sinterp (pred limit) ignore lk st (cstr s).
 
 (* ---------------------------------------------------------------- builddir *)
-Definition running_tmpl : bytes := bs "${robsddir}/.running".
 
 Fixpoint first_line (b : bytes) : option bytes :=
   match b with
@@ -451,20 +447,8 @@ Definition cfg_interp_early (E : env) (T : tables) (c : cfg) (s : bytes) : cfg *
 Inductive prv := R_append (v : value) | R_error | R_nop | R_fatal.
 
 Definition regress_name (path suffix : bytes) : bytes :=
-  bs "regress-" ++ path ++ 45 :: suffix.
+  regress_prefix ++ path ++ 45 :: suffix.
 
-Definition kw_canvas_dir : bytes := bs "canvas-dir".
-Definition kw_robsddir : bytes := bs "robsddir".
-Definition kw_step : bytes := bs "step".
-Definition kw_regress_env : bytes := bs "regress-env".
-Definition kw_regress_obj : bytes := bs "regress-obj".
-Definition kw_regress_packages : bytes := bs "regress-packages".
-Definition sfx_env : bytes := bs "env".
-Definition sfx_parallel : bytes := bs "parallel".
-Definition sfx_quiet : bytes := bs "quiet".
-Definition sfx_root : bytes := bs "root".
-Definition sfx_targets : bytes := bs "targets".
-Definition regress_env_ref : bytes := bs "${regress-env}".
 
 Section Parse.
   Variable E : env.
